@@ -142,9 +142,15 @@ class Schedule:
 class Sim:
     """One simulated pool instance (created by SimExecutor)."""
 
-    def __init__(self, schedule: Schedule, max_workers, log):
+    def __init__(self, schedule: Schedule, max_workers, log,
+                 initializer=None, initargs=()):
         self.s = schedule
         self.max_workers = max_workers
+        # worker initializer: shipped to every worker process at start-up
+        self.initializer = initializer
+        self.initargs_blob = (pickle.dumps(tuple(initargs), protocol=4)
+                              if initializer is not None else None)
+        self.n_initialized = 0
         self.now = 0.0
         self.seq = 0
         self.heap = []            # (time, seq, kind, payload)
@@ -219,7 +225,28 @@ class Sim:
                 idx = self.queue.pop(0)
                 self._start(w, idx)
 
+    def _run_initializer(self):
+        """A simulated worker process starts: run its initializer (on a
+        pickled copy of the arguments).  A raising initializer breaks the
+        pool, as in CPython."""
+        if self.initializer is None:
+            return True
+        self.n_initialized += 1
+        self.log['initializer_runs'] = self.log.get('initializer_runs', 0) + 1
+        try:
+            self.initializer(*pickle.loads(self.initargs_blob))
+            return True
+        except BaseException as e:  # noqa: BLE001
+            if isinstance(e, (KeyboardInterrupt, SystemExit, MemoryError)):
+                raise
+            self._break()
+            return False
+
     def _start(self, w, idx):
+        if not w.get('initialized'):
+            w['initialized'] = True
+            if not self._run_initializer():
+                return
         w['busy'] = True
         fut = self.tasks[idx]['future']
         fut._state = RUNNING
@@ -309,6 +336,10 @@ class Sim:
                 and any(not t['future'].done() for t in self.tasks)):
             self._break()
             return True
+        if self.initializer is not None and self.n_initialized == 0:
+            for _ in range(max(1, min(self.max_workers, len(self.tasks)))):
+                if not self._run_initializer():
+                    return True
         for idx in self.s.order:
             if idx < len(self.tasks) and not self.tasks[idx]['future'].done():
                 if idx in self.queue:
@@ -371,8 +402,10 @@ class SimPoolFactory:
     def ProcessPoolExecutor(self, max_workers=None, mp_context=None,
                             initializer=None, initargs=(), **kw):
         self._count('ProcessPoolExecutor')
-        if initializer is not None or kw:
-            raise SimUnsupported(f'executor options {initializer!r} {kw!r}')
+        if kw:
+            raise SimUnsupported(f'executor options {kw!r}')
+        if initializer is not None and not callable(initializer):
+            raise TypeError('initializer must be a callable')
         if max_workers is None:
             max_workers = self.schedule.cpu_count
         if not isinstance(max_workers, int) or isinstance(max_workers, bool):
@@ -383,7 +416,8 @@ class SimPoolFactory:
                 raise TypeError('max_workers must be an integer') from None
         if max_workers <= 0:
             raise ValueError('max_workers must be greater than 0')
-        sim = Sim(self.schedule, max_workers, self.log)
+        sim = Sim(self.schedule, max_workers, self.log,
+                  initializer=initializer, initargs=initargs)
         self.sims.append(sim)
         return SimExecutor(sim, self)
 
